@@ -259,8 +259,31 @@ def random_slice(rng, docs):
             t = rng.choice(types)
             return Slice(Fragment.from_(Node(t, gen_attrs(rng, t), Fragment.empty, [])), 1, 1)
     f, t = random_range(rng, d)
+    if r > 0.88:
+        # aimed: the cut starts at the very end (or ends at the very start) of a nested node's content, so that the slice's
+        # first (last) child is an *empty* open node with siblings beside it
+        al = aligned_positions(d)
+        ends, starts = [], []
+        for p in al:
+            try:
+                rp = d.resolve(p)
+            except Exception:  # noqa: BLE001
+                continue
+            if rp.depth >= 2 and p == rp.end(rp.depth) and not rp.parent.inline_content:
+                ends.append(p)
+            if rp.depth >= 2 and p == rp.start(rp.depth) and not rp.parent.inline_content:
+                starts.append(p)
+        if ends and rng.random() < 0.6:
+            f = rng.choice(ends)
+            later = [p for p in al if p > f]
+            t = rng.choice(later) if later else f
+        elif starts:
+            t = rng.choice(starts)
+            earlier = [p for p in al if p < t]
+            f = rng.choice(earlier) if earlier else t
     try:
-        s = d.slice(f, t)
+        # sometimes with the parent nodes kept, as a clipboard slice would be (deeper open sides)
+        s = d.slice(f, t, True) if (r > 0.8 and f < t and rng.random() < 0.5) else d.slice(f, t)
     except Exception:  # noqa: BLE001
         return Slice.empty
     if r < 0.25 and s.content.size and (s.open_start or s.open_end):
